@@ -22,7 +22,7 @@ CMP = ("x", "fun", "jac", "nfev", "njev", "nit", "message", "status", "success",
 def floors(tier):
     return {"pairs_compared": 300, "evaluation_points_compared": 5000, "callback_states_compared": 1500, "scaler_argument_checks": 300,
             "target_runs": 100, "target_runs_with_the_target_a_few_ulp_below_a_visited_value": 100, "target_stops": 30, "packaged_scaler_pairs": 20, "finite_difference_pairs": 40,
-            "pairs_with_identity_update_function": 40, "pairs_with_an_update_function_switching_on_a_ridge_term": 40, "pairs_with_reused_gradient_buffer": 40, "pairs_from_a_start_beyond_unit_step_resolution": 20, "pairs_with_infinite_trial_values": 8, "__nontrivial__": 100}
+            "pairs_with_identity_update_function": 40, "pairs_with_a_factor_within_1e-5_of_one": 30, "pairs_with_an_update_function_switching_on_a_ridge_term": 40, "pairs_with_reused_gradient_buffer": 40, "pairs_from_a_start_beyond_unit_step_resolution": 20, "pairs_with_infinite_trial_values": 8, "__nontrivial__": 100}
 
 
 def cases(tier, seed):
@@ -60,6 +60,9 @@ def cases(tier, seed):
             ps = gen.rand_spec(rng, ("log_barrier", "qp_inf_region", "qp_inf_region"), nmax=6, boxes=("none", "none", "upper"), starts=("interior",))
             cfg["jac"] = "callable"
             s = float(np.exp(rng.uniform(np.log(1e-3), np.log(0.3))))
+        elif i % 10 == 1 and cfg["jac"] == "callable":
+            # a factor that differs from 1 in the 6th to 13th digit only: it is a factor like any other
+            s = float(1.0 + float(rng.choice([-1.0, 1.0])) * 10.0 ** rng.uniform(-13, -5.5))
         if cfg["jac"] == "callable" and i % 5 == 2:
             cfg["reuse_grad_buffer"] = True  # the user's gradient fills and returns one preallocated array (in both runs of the pair)
         yield {"problem": ps, "cfg": cfg, "s": s, "target_frac": float(rng.uniform(0.1, 0.9)), "ufd_identity": bool(i % 5 == 0), "target_ulps": int(rng.integers(1, 4)),
@@ -206,6 +209,8 @@ def run(spec):
     if not np.isfinite(f0):
         out.skipped = "nonfinite_start_value"
         return out
+    if spec["s"] != "packaged" and 0 < abs(float(spec["s"]) - 1.0) < 1e-5:
+        out.count("pairs_with_a_factor_within_1e-5_of_one")
     if spec.get("ufd_identity"):
         cfg["ufd"] = "identity"  # an update function that returns its inputs must not change any of this
         out.count("pairs_with_identity_update_function")
